@@ -217,6 +217,12 @@ def decodesTo (v : JVal) (capture : Bytes) : Bool :=
   | .bool b => capture.map lower == (if b then litTrue else litFalse)
   | .null => false
 
+/-- member-wise: same names in the same order, every value decodes to the capture -/
+def membersDecode : List (Bytes × JVal) → List (Bytes × Bytes) → Bool
+  | [], [] => true
+  | m :: ms, e :: es => m.1 == e.1 && decodesTo m.2 e.2 && membersDecode ms es
+  | _, _ => false
+
 /-! ### Which members a view contains -/
 
 /-- Text of group `i` for a `FindSubmatchIndex`-style index slice (empty when the group is out of
